@@ -209,12 +209,20 @@ func c11IsString(t types.Type) bool {
 type c11FieldSrc struct {
 	Field string
 	Base  ssa.Value // the *proto.Rule value the field was read from
+	Acc   ssa.Value // the Field / FieldAddr / getter call that reads it
 }
 
 // ruleFieldsOf returns the proto.Rule fields a value is computed from (through
 // loads, sub-field selection, type assertion, conversion, indexing, arithmetic,
 // phi).  It does not look through calls.
 func (m *c11Model) ruleFieldsOf(v ssa.Value) []c11FieldSrc {
+	return c11FieldsOfType(v, m.ruleT)
+}
+
+// c11FieldsOfType returns the fields of the named struct type `typ` that v is
+// computed from (same walk as ruleFieldsOf; Acc is the Field/FieldAddr
+// instruction of each access).
+func c11FieldsOfType(v ssa.Value, typ *types.Named) []c11FieldSrc {
 	seen := map[ssa.Value]bool{}
 	var out []c11FieldSrc
 	isRule := func(t types.Type) bool {
@@ -225,7 +233,7 @@ func (m *c11Model) ruleFieldsOf(v ssa.Value) []c11FieldSrc {
 			}
 			break
 		}
-		return types.Identical(types.Unalias(t), m.ruleT)
+		return types.Identical(types.Unalias(t), typ)
 	}
 	var walk func(v ssa.Value)
 	walk = func(v ssa.Value) {
@@ -236,13 +244,13 @@ func (m *c11Model) ruleFieldsOf(v ssa.Value) []c11FieldSrc {
 		switch x := v.(type) {
 		case *ssa.FieldAddr:
 			if isRule(x.X.Type()) {
-				out = append(out, c11FieldSrc{fieldName(x.X.Type(), x.Field), x.X})
+				out = append(out, c11FieldSrc{fieldName(x.X.Type(), x.Field), x.X, x})
 				return
 			}
 			walk(x.X)
 		case *ssa.Field:
 			if isRule(x.X.Type()) {
-				out = append(out, c11FieldSrc{fieldName(x.X.Type(), x.Field), x.X})
+				out = append(out, c11FieldSrc{fieldName(x.X.Type(), x.Field), x.X, x})
 				return
 			}
 			walk(x.X)
@@ -290,7 +298,7 @@ func (m *c11Model) ruleFieldsOf(v ssa.Value) []c11FieldSrc {
 			if f := calleeOf(x.Common()); f != nil && strings.HasPrefix(f.Name(), "Get") {
 				if sig := f.Type().(*types.Signature); sig.Recv() != nil && isRule(sig.Recv().Type()) {
 					args := CallSite{x, f, x.Parent()}.Args()
-					out = append(out, c11FieldSrc{strings.TrimPrefix(f.Name(), "Get"), args[0]})
+					out = append(out, c11FieldSrc{strings.TrimPrefix(f.Name(), "Get"), args[0], x})
 				}
 			}
 		}
@@ -755,4 +763,178 @@ func c11Separates(a, b, c ssa.Instruction) bool {
 		st = append(st, x.Succs...)
 	}
 	return true
+}
+
+// ------------------------------------------------------------ stage helpers --
+
+// c11BoolFieldPred: an If edge on which the bool struct field fv (or an alias
+// accepted by `alias`) has the value want.
+func c11BoolFieldPred(fv *types.Var, want bool, alias func(ssa.Value) bool) EdgePred {
+	return func(cond ssa.Value, pol bool) bool {
+		if pol != want {
+			return false
+		}
+		if _, isLoad := cond.(*ssa.UnOp); !isLoad {
+			if _, isField := cond.(*ssa.Field); !isField {
+				return false
+			}
+		}
+		return fieldVar(cond) == fv || (alias != nil && alias(cond))
+	}
+}
+
+// c11TriState: +1 if every path to `in` crosses an edge where pred(true) holds,
+// -1 likewise for pred(false), 0 otherwise.
+func c11TriState(in ssa.Instruction, mk func(want bool) EdgePred) int {
+	switch {
+	case guardedCut(in, mk(true)):
+		return +1
+	case guardedCut(in, mk(false)):
+		return -1
+	}
+	return 0
+}
+
+// c11EdgeTriState: like c11TriState for the CFG edge pred->succ.
+func c11EdgeTriState(pred, succ *ssa.BasicBlock, mk func(want bool) EdgePred) int {
+	if ifi, ok := pred.Instrs[len(pred.Instrs)-1].(*ssa.If); ok && len(pred.Succs) == 2 && pred.Succs[0] != pred.Succs[1] {
+		for k, s := range pred.Succs {
+			if s != succ {
+				continue
+			}
+			c, pol := stripNot(ifi.Cond, k == 0)
+			if mk(true)(c, pol) {
+				return +1
+			}
+			if mk(false)(c, pol) {
+				return -1
+			}
+		}
+	}
+	return c11TriState(pred.Instrs[len(pred.Instrs)-1], mk)
+}
+
+// c11ValueCase is one possible value of an SSA value together with the CFG
+// position that selects it (the instruction itself, or a phi edge).
+type c11ValueCase struct {
+	V          ssa.Value
+	Pred, Succ *ssa.BasicBlock // phi edge; nil for the value at its use
+}
+
+// c11CasesOf splits v into its phi alternatives (one level; conversions skipped).
+func c11CasesOf(v ssa.Value) []c11ValueCase {
+	for {
+		switch x := v.(type) {
+		case *ssa.Convert:
+			v = x.X
+			continue
+		case *ssa.ChangeType:
+			v = x.X
+			continue
+		}
+		break
+	}
+	if phi, ok := v.(*ssa.Phi); ok {
+		var out []c11ValueCase
+		for i, e := range phi.Edges {
+			out = append(out, c11ValueCase{e, phi.Block().Preds[i], phi.Block()})
+		}
+		return out
+	}
+	return []c11ValueCase{{V: v}}
+}
+
+// fieldOffsetStrings maps every package-level asm.FieldOffset variable of
+// polprog to its Field string (the repository's own link to the C field).
+func (m *c11Model) fieldOffsetStrings() map[*ssa.Global]string {
+	sp := m.p.SSAPkg(c11PolPkg)
+	if sp == nil {
+		m.c.Lost("SSA package polprog")
+	}
+	init := sp.Func("init")
+	if init == nil {
+		m.c.Lost("polprog.init")
+	}
+	out := map[*ssa.Global]string{}
+	allInstrs(init, true, func(_ *ssa.Function, in ssa.Instruction) {
+		st, ok := in.(*ssa.Store)
+		if !ok {
+			return
+		}
+		s, ok := c11ConstString(st.Val)
+		if !ok {
+			return
+		}
+		fa, ok := st.Addr.(*ssa.FieldAddr)
+		if !ok || fieldName(fa.X.Type(), fa.Field) != "Field" || namedTypeName(fa.X.Type()) != "FieldOffset" {
+			return
+		}
+		if g, ok := fa.X.(*ssa.Global); ok {
+			out[g] = s
+			return
+		}
+		if al, ok := fa.X.(*ssa.Alloc); ok {
+			for _, r := range *al.Referrers() {
+				ld, ok := r.(*ssa.UnOp)
+				if !ok || ld.Op != token.MUL {
+					continue
+				}
+				for _, rr := range *ld.Referrers() {
+					if gs, ok := rr.(*ssa.Store); ok && gs.Val == ld {
+						if g, ok := gs.Addr.(*ssa.Global); ok {
+							out[g] = s
+						}
+					}
+				}
+			}
+		}
+	})
+	if len(out) == 0 {
+		m.c.Lost("no asm.FieldOffset variable with a Field string in polprog")
+	}
+	return out
+}
+
+// c11EqFacts lists what the conditions fixed on the edge pred->succ (succ may be
+// nil: on entry to pred's end) say about `v == <string constant>`.
+func c11EqFacts(pred, succ *ssa.BasicBlock, v ssa.Value) (isC []string, notC []string) {
+	add := func(cond ssa.Value, pol bool) {
+		cond, pol = stripNot(cond, pol)
+		bo, ok := cond.(*ssa.BinOp)
+		if !ok || (bo.Op != token.EQL && bo.Op != token.NEQ) {
+			return
+		}
+		if bo.Op == token.NEQ {
+			pol = !pol
+		}
+		var s string
+		var isConst bool
+		switch {
+		case bo.X == v:
+			s, isConst = c11ConstString(bo.Y)
+		case bo.Y == v:
+			s, isConst = c11ConstString(bo.X)
+		}
+		if !isConst {
+			return
+		}
+		if pol {
+			isC = append(isC, s)
+		} else {
+			notC = append(notC, s)
+		}
+	}
+	if succ != nil {
+		if ifi, ok := pred.Instrs[len(pred.Instrs)-1].(*ssa.If); ok && len(pred.Succs) == 2 && pred.Succs[0] != pred.Succs[1] {
+			for k, s := range pred.Succs {
+				if s == succ {
+					add(ifi.Cond, k == 0)
+				}
+			}
+		}
+	}
+	for _, g := range guardsOfBlock(pred) {
+		add(g.Cond, g.True)
+	}
+	return
 }
